@@ -9,21 +9,36 @@ From Coq Require Import Permutation.
 From CG Require Import Base.Prelude Model.Dfa Spec.DotRead Spec.DotSpec Model.Dot
      Proofs.DotLex Proofs.DotParse Proofs.DotDfaMain Proofs.DotRegex Proofs.DotRegexTotal.
 
-(** The pinned code, outside the known-finding classes: the text [DFA::to_dot] writes for a
-    well-formed automaton is valid DOT and denotes exactly the prescribed graph. *)
+(** The code as it is now (after commit 0e66d33), on the automata [minimize] returns -- well formed
+    ([wf_cdfa]) and with start state 0 ([starts_at_zero]: what [renumber_states] guarantees), both
+    checked on every run on Rust's MIN automaton: the text [DFA::to_dot] writes is valid DOT and
+    denotes exactly the prescribed graph.  No exception. *)
 Theorem C16_dfa_dot :
-  forall base c, wf_cdfa c = true -> known_C16 base c = false ->
+  forall base c, wf_cdfa c = true -> starts_at_zero c = true ->
     exists text g, Dot.of_dfa base c = Ok text /\ DotRead.read text = Some g
                    /\ gview_equiv (view g) (DotSpec.graph_of_dfa base c).
-Proof. exact dfa_dot_pinned. Qed.
+Proof. exact dfa_dot_current_min. Qed.
 Check C16_dfa_dot :
-  forall base c, wf_cdfa c = true -> known_C16 base c = false ->
+  forall base c, wf_cdfa c = true -> starts_at_zero c = true ->
     exists text g, Dot.of_dfa base c = Ok text /\ DotRead.read text = Some g
                    /\ gview_equiv (view g) (DotSpec.graph_of_dfa base c).
 Print Assumptions C16_dfa_dot.
 
-(** The code after the proposed patches (escape backslashes then quotes; [+ array_start] on the
-    accepting states of a within-word automaton; no unconditional state 0): no exception. *)
+(** The same for any well-formed automaton of which 0 is a state (the one class left, latent:
+    [get_all_states] inserts state 0 whether it is a state or not). *)
+Theorem C16_dfa_dot_no_phantom :
+  forall base c, wf_cdfa c = true -> known_phantom c = false ->
+    exists text g, Dot.of_dfa base c = Ok text /\ DotRead.read text = Some g
+                   /\ gview_equiv (view g) (DotSpec.graph_of_dfa base c).
+Proof. exact dfa_dot_current. Qed.
+Check C16_dfa_dot_no_phantom :
+  forall base c, wf_cdfa c = true -> known_phantom c = false ->
+    exists text g, Dot.of_dfa base c = Ok text /\ DotRead.read text = Some g
+                   /\ gview_equiv (view g) (DotSpec.graph_of_dfa base c).
+Print Assumptions C16_dfa_dot_no_phantom.
+
+(** With the remaining optional hunk (regular states computed without the unconditional state 0):
+    every well-formed automaton. *)
 Theorem C16_dfa_dot_patched :
   forall base c, wf_cdfa c = true ->
     exists text g, Dot.of_dfa_with patched base c = Ok text /\ DotRead.read text = Some g
@@ -35,15 +50,20 @@ Check C16_dfa_dot_patched :
                    /\ gview_equiv (view g) (DotSpec.graph_of_dfa base c).
 Print Assumptions C16_dfa_dot_patched.
 
-(** Outside the known classes the patches change nothing. *)
-Theorem C16_patches_conservative :
-  forall base c, wf_cdfa c = true -> known_C16 base c = false ->
-    Dot.of_dfa_with pinned base c = Dot.of_dfa_with patched base c.
-Proof. exact dfa_dot_variants_agree. Qed.
-Check C16_patches_conservative :
-  forall base c, wf_cdfa c = true -> known_C16 base c = false ->
-    Dot.of_dfa_with pinned base c = Dot.of_dfa_with patched base c.
-Print Assumptions C16_patches_conservative.
+(** The code before commit 0e66d33 was right exactly outside its three classes (and there the fix
+    changes nothing). *)
+Theorem C16_dfa_dot_old :
+  forall base c, wf_cdfa c = true -> known_C16_old base c = false ->
+    Dot.of_dfa_with old base c = Dot.of_dfa_with patched base c
+    /\ exists text g, Dot.of_dfa_with old base c = Ok text /\ DotRead.read text = Some g
+                      /\ gview_equiv (view g) (DotSpec.graph_of_dfa base c).
+Proof. intros base c Hwf Hk. split; [now apply dfa_dot_old_agree|now apply dfa_dot_old]. Qed.
+Check C16_dfa_dot_old :
+  forall base c, wf_cdfa c = true -> known_C16_old base c = false ->
+    Dot.of_dfa_with old base c = Dot.of_dfa_with patched base c
+    /\ exists text g, Dot.of_dfa_with old base c = Ok text /\ DotRead.read text = Some g
+                      /\ gview_equiv (view g) (DotSpec.graph_of_dfa base c).
+Print Assumptions C16_dfa_dot_old.
 
 (** The codec shared by both files: the text written for any list of well-formed lines is read back
     as exactly the statements the lines stand for. *)
@@ -74,35 +94,36 @@ Print Assumptions C16_label_codec.
 
 (** ** The --regex file *)
 
-(** On an arena as Rust builds them -- [rx_total_b]: children have smaller indices, every leaf's
-    position holds an input of its kind, every within-word input names a regex of the pool, roots
-    exist, within-word regexes contain no within-word node; [rx_wf_b]: every position has its leaf
-    reachable from the root through Cat/Or nodes; both checked on every run on Rust's REGEX stage --
-    the patched model of [Regex::to_dot] returns a text, the text is valid DOT, and every position of
-    the regex and of every within-word regex it uses labels a node (the latter inside [cluster_R]). *)
-Theorem C16_regex_dot_patched :
-  forall pool r, rx_total_b pool r = true -> rx_wf_b pool r = true ->
-    exists text g, Dot.of_regex_with patched pool r = Ok text /\ DotRead.read text = Some g
-                   /\ regex_ok g (spec_pool pool) (spec_items r).
-Proof. exact regex_dot_patched_total. Qed.
-Check C16_regex_dot_patched :
-  forall pool r, rx_total_b pool r = true -> rx_wf_b pool r = true ->
-    exists text g, Dot.of_regex_with patched pool r = Ok text /\ DotRead.read text = Some g
-                   /\ regex_ok g (spec_pool pool) (spec_items r).
-Print Assumptions C16_regex_dot_patched.
-
-(** The pinned code, when no literal, description or nonterminal name contains a double quote or a
-    backslash. *)
+(** The code as it is now, on an arena as Rust builds them -- [rx_total_b]: children have smaller
+    indices, every leaf's position holds an input of its kind, every within-word input names a regex
+    of the pool, roots exist, within-word regexes contain no within-word node; [rx_wf_b]: every
+    position has its leaf reachable from the root through Cat/Or nodes; both checked on every run on
+    Rust's REGEX stage: [Regex::to_dot] returns a text (no panic, the fuel suffices), the text is
+    valid DOT, and every position of the regex and of every within-word regex it uses labels a node
+    (the latter inside [cluster_R]).  No exception. *)
 Theorem C16_regex_dot :
-  forall pool r, rx_total_b pool r = true -> rx_wf_b pool r = true -> known_rx_all pool r = false ->
+  forall pool r, rx_total_b pool r = true -> rx_wf_b pool r = true ->
     exists text g, Dot.of_regex pool r = Ok text /\ DotRead.read text = Some g
                    /\ regex_ok g (spec_pool pool) (spec_items r).
-Proof. exact regex_dot_pinned_total. Qed.
+Proof. exact regex_dot_current_total. Qed.
 Check C16_regex_dot :
-  forall pool r, rx_total_b pool r = true -> rx_wf_b pool r = true -> known_rx_all pool r = false ->
+  forall pool r, rx_total_b pool r = true -> rx_wf_b pool r = true ->
     exists text g, Dot.of_regex pool r = Ok text /\ DotRead.read text = Some g
                    /\ regex_ok g (spec_pool pool) (spec_items r).
 Print Assumptions C16_regex_dot.
+
+(** The code before commit 0e66d33, when no literal, description or nonterminal name contains a
+    double quote or a backslash. *)
+Theorem C16_regex_dot_old :
+  forall pool r, rx_total_b pool r = true -> rx_wf_b pool r = true -> known_rx_all pool r = false ->
+    exists text g, Dot.of_regex_with old pool r = Ok text /\ DotRead.read text = Some g
+                   /\ regex_ok g (spec_pool pool) (spec_items r).
+Proof. exact regex_dot_old_total. Qed.
+Check C16_regex_dot_old :
+  forall pool r, rx_total_b pool r = true -> rx_wf_b pool r = true -> known_rx_all pool r = false ->
+    exists text g, Dot.of_regex_with old pool r = Ok text /\ DotRead.read text = Some g
+                   /\ regex_ok g (spec_pool pool) (spec_items r).
+Print Assumptions C16_regex_dot_old.
 
 (** Whatever the arena, whenever the patched printer returns, the text is valid DOT (coverage is only
     needed for "every item appears"). *)
@@ -119,7 +140,8 @@ Check C16_regex_dot_valid :
                   regex_ok g (spec_pool pool) (spec_items r)).
 Print Assumptions C16_regex_dot_valid.
 
-(** ** The known classes are inhabited: the pinned code is refuted on each of them. *)
+(** ** The classes are inhabited: the code before commit 0e66d33 is refuted on each of its three,
+    the current code on the latent one. *)
 
 (** a description containing a double quote: the --dfa file is not DOT at all *)
 Definition w_quote : cdfa :=
@@ -127,8 +149,8 @@ Definition w_quote : cdfa :=
 
 Definition C16_refuted_quotes_dfa_statement : Prop :=
   wf_cdfa w_quote = true /\ known_labels w_quote = true
-  /\ (exists text, Dot.of_dfa 0 w_quote = Ok text /\ DotRead.read text = None)
-  /\ (exists text g, Dot.of_dfa_with patched 0 w_quote = Ok text /\ DotRead.read text = Some g
+  /\ (exists text, Dot.of_dfa_with old 0 w_quote = Ok text /\ DotRead.read text = None)
+  /\ (exists text g, Dot.of_dfa 0 w_quote = Ok text /\ DotRead.read text = Some g
                      /\ gdiff_ok (compare (view g) (graph_of_dfa 0 w_quote)) = true).
 Example C16_refuted_quotes_dfa : C16_refuted_quotes_dfa_statement.
 Proof.
@@ -146,7 +168,7 @@ Definition w_backslash : cdfa :=
 
 Definition C16_refuted_backslash_dfa_statement : Prop :=
   wf_cdfa w_backslash = true /\ known_labels w_backslash = true
-  /\ exists text g, Dot.of_dfa 0 w_backslash = Ok text /\ DotRead.read text = Some g
+  /\ exists text g, Dot.of_dfa_with old 0 w_backslash = Ok text /\ DotRead.read text = Some g
                     /\ gdiff_ok (compare (view g) (graph_of_dfa 0 w_backslash)) = false.
 Example C16_refuted_backslash_dfa : C16_refuted_backslash_dfa_statement.
 Proof.
@@ -164,10 +186,10 @@ Definition w_sub : cdfa :=
          [mkdfa 0 [(0, [(0, 1)]); (1, [(1, 2); (2, 2)])] [2] [ILit "--o=" None 0; ILit "x" None 0; ILit "y" None 0]].
 
 Definition C16_refuted_subword_base_statement : Prop :=
-  wf_cdfa w_sub = true /\ known_subacc 1 w_sub = true /\ known_C16 0 w_sub = false
-  /\ (exists text g, Dot.of_dfa 1 w_sub = Ok text /\ DotRead.read text = Some g
+  wf_cdfa w_sub = true /\ known_subacc 1 w_sub = true /\ known_C16_old 0 w_sub = false
+  /\ (exists text g, Dot.of_dfa_with old 1 w_sub = Ok text /\ DotRead.read text = Some g
                      /\ gdiff_ok (compare (view g) (graph_of_dfa 1 w_sub)) = false)
-  /\ (exists text g, Dot.of_dfa_with patched 1 w_sub = Ok text /\ DotRead.read text = Some g
+  /\ (exists text g, Dot.of_dfa 1 w_sub = Ok text /\ DotRead.read text = Some g
                      /\ gdiff_ok (compare (view g) (graph_of_dfa 1 w_sub)) = true).
 Example C16_refuted_subword_base : C16_refuted_subword_base_statement.
 Proof.
@@ -204,8 +226,8 @@ Definition w_rx : regex :=
 
 Definition C16_refuted_quotes_regex_statement : Prop :=
   known_rx [] w_rx = true
-  /\ (exists text, Dot.of_regex [] w_rx = Ok text /\ DotRead.read text = None)
-  /\ (exists text g, Dot.of_regex_with patched [] w_rx = Ok text /\ DotRead.read text = Some g
+  /\ (exists text, Dot.of_regex_with old [] w_rx = Ok text /\ DotRead.read text = None)
+  /\ (exists text g, Dot.of_regex [] w_rx = Ok text /\ DotRead.read text = Some g
                      /\ regex_missing g [] [XLit (append "a" (append dq "b")) None] = []).
 Example C16_refuted_quotes_regex : C16_refuted_quotes_regex_statement.
 Proof.
@@ -225,7 +247,7 @@ Definition ex_c : cdfa :=
          [mkdfa 0 [(0, [(0, 1)]); (1, [(1, 2); (2, 2)])] [2] [ILit "--o=" None 0; ILit "x" None 0; ILit "y" None 0]].
 
 Example ex_C16_inhabited :
-  wf_cdfa ex_c = true /\ known_C16 0 ex_c = false
+  wf_cdfa ex_c = true /\ starts_at_zero ex_c = true
   /\ exists text g, Dot.of_dfa 0 ex_c = Ok text /\ DotRead.read text = Some g
                     /\ List.length (g_nodes g) = 6%nat /\ List.length (g_edges g) = 9%nat
                     /\ List.length (g_subs g) = 1%nat
@@ -238,7 +260,7 @@ Qed.
 Print Assumptions ex_C16_inhabited.
 
 (** a regex with a within-word regex, a repetition (Star shares its child), a command and a
-    description: well formed, outside the class, the pinned printer returns, all five labels found *)
+    description: well formed, outside the class, the old printer returns, all five labels found *)
 Definition ex_pool : rpool :=
   [(0, mkregex 6 [RLit "--o=" None; RLit "x" None; RLit "y" None]
                [RTerm 0; RTerm 1; RTerm 2; ROr [1; 2]; RCat [0; 3]; REnd 3; RCat [4; 5]])].
@@ -247,12 +269,12 @@ Definition ex_r : regex :=
           [RTerm 0; RSubword 1; RNt 2; RCat [1; 2]; RCommand 3; ROr [0; 3; 4]; RStar 5; RCat [5; 6]; REnd 4; RCat [7; 8]].
 
 Example ex_C16_regex_inhabited :
-  rx_total_b ex_pool ex_r = true /\ rx_wf_b ex_pool ex_r = true /\ known_rx_all ex_pool ex_r = false
+  rx_total_b ex_pool ex_r = true /\ rx_wf_b ex_pool ex_r = true
   /\ exists text g, Dot.of_regex ex_pool ex_r = Ok text /\ DotRead.read text = Some g
                     /\ List.length (g_nodes g) = 17%nat /\ List.length (g_subs g) = 1%nat
                     /\ regex_missing g (spec_pool ex_pool) (spec_items ex_r) = [].
 Proof.
-  split; [vm_compute; reflexivity|]. split; [vm_compute; reflexivity|]. split; [vm_compute; reflexivity|].
+  split; [vm_compute; reflexivity|]. split; [vm_compute; reflexivity|].
   eexists. eexists. split; [vm_compute; reflexivity|]. split; [vm_compute; reflexivity|].
   repeat (split; [vm_compute; reflexivity|]). vm_compute; reflexivity.
 Qed.
